@@ -147,6 +147,16 @@ ExactlyOnceSoFar == \A i, j \in 1..Len(consumed) : i # j => consumed[i] # consum
 Quiescent == (\A th \in Threads : pc[th] = "done") /\ head = tail
 AllDelivered == Quiescent => SeqToSet(consumed) = accepted /\ Len(consumed) = Cardinality(accepted)
 
+\* The ghost counters of SqInd.tla (the Apalache module with W = 2^32), expressed through the
+\* histories of this module: entries ever published / ever consumed.  Checking them here ties the
+\* inductive invariant proved there to the model that is bound to the code.
+GhostPub == Start + Cardinality(accepted)
+GhostCons == Start + Len(consumed)
+GhostAgrees == tail = GhostPub % W /\ head = GhostCons % W
+GhostNoOverrun == GhostPub - GhostCons >= 0 /\ GhostPub - GhostCons <= N
+GhostWriterSafe == \A th \in Threads : pc[th] \in {"zero", "fill", "pub"} =>
+                       lockHolder = th /\ t[th] = tail /\ GhostPub - GhostCons < N
+
 \* An add reports QueueFull only if the queue was full at some point of the
 \* call: (weaker, checkable form) never when nothing at all is pending and the
 \* lock is held by the caller.  -- stated as: a rejected add never leaves the
